@@ -110,6 +110,9 @@ def _benign_job(args):
                                                  ast.parse('_vsa_noop_ = None').body[0])
                         ast.fix_missing_locations(tree)
                         out = ast.unparse(tree)
+                    elif kind == 'rename-locals':
+                        rename_locals(tree)
+                        out = ast.unparse(tree)
                     else:
                         out = s
                     compile(out, p, 'exec')
@@ -128,7 +131,55 @@ def _benign_job(args):
         shutil.rmtree(d, ignore_errors=True)
 
 
-def run_for(pid, seed=0, repo=None, workers=None):
+def rename_locals(tree):
+    """Consistently rename the local variables (not parameters) of every function that has no nested
+    scope other than comprehensions.  Semantics preserving."""
+    for fn in ast.walk(tree):
+        if not isinstance(fn, ast.FunctionDef):
+            continue
+        nested = False
+        bad = False
+        for n in ast.walk(fn):
+            if n is fn:
+                continue
+            if isinstance(n, (ast.FunctionDef, ast.AsyncFunctionDef, ast.Lambda, ast.ClassDef)):
+                nested = True
+            if isinstance(n, (ast.Global, ast.Nonlocal)):
+                bad = True
+            if isinstance(n, ast.Name) and n.id in ('locals', 'exec', 'eval', 'vars'):
+                bad = True
+        if nested or bad:
+            continue
+        a = fn.args
+        params = {x.arg for x in a.posonlyargs + a.args + a.kwonlyargs}
+        if a.vararg:
+            params.add(a.vararg.arg)
+        if a.kwarg:
+            params.add(a.kwarg.arg)
+        assigned = set()
+        for n in ast.walk(fn):
+            if isinstance(n, ast.Name) and isinstance(n.ctx, (ast.Store, ast.Del)):
+                assigned.add(n.id)
+            if isinstance(n, ast.ExceptHandler) and n.name:
+                bad = True
+        if bad:
+            continue
+        locals_ = {x for x in assigned if x not in params and not x.startswith('__')}
+        if not locals_:
+            continue
+        allnames = {n.id for n in ast.walk(fn) if isinstance(n, ast.Name)}
+        mapping = {}
+        for x in sorted(locals_):
+            new = x + '_rn'
+            while new in allnames or new in params:
+                new += '_'
+            mapping[x] = new
+        for n in ast.walk(fn):
+            if isinstance(n, ast.Name) and n.id in mapping:
+                n.id = mapping[n.id]
+
+
+def run_for(pid, seed=0, repo=None, workers=None, variants=('unparse', 'unparse+noise')):
     from .mutants import MUTANTS
     repo = repo or os.environ.get('VSA_REPO', REPO)
     with contextlib.redirect_stdout(io.StringIO()):
@@ -136,7 +187,7 @@ def run_for(pid, seed=0, repo=None, workers=None):
     base_keys = base['keys']
     muts = MUTANTS.get(pid, [])
     jobs = [(pid, m, base_keys, repo) for m in muts]
-    bjobs = [(pid, k, base_keys, repo) for k in ('unparse', 'unparse+noise')]
+    bjobs = [(pid, k, base_keys, repo) for k in variants]
     workers = workers or min(16, max(1, len(jobs) + len(bjobs)))
     results, benign = [], []
     with ProcessPoolExecutor(max_workers=workers) as ex:
